@@ -60,7 +60,10 @@ ASSUMPTIONS = [
 
 TEXTS = ['x', 'y z', 'a,b', 'q"uote', "s'q", 'l1\nl2', 'cr\rx', 'crlf\r\ny',
          'é', '€', '\U0001F600', '', ' ', '\t', 'a|b', 'a;b', '"', '""', ',',
-         '\n', 'nul\x00x', 'tail\r', '﻿', '1', '2.5', 'None', "'"]
+         '\n', 'nul\x00x', 'tail\r', '﻿', '1', '2.5', 'None', "'",
+         # the other characters str.splitlines() breaks at
+         'nel\x85x', 'ls\u2028x', 'ps\u2029x', 'vt\x0bx', 'ff\x0cx',
+         'fs\x1cx', 'rs\x1ey']
 TYPED = [None, 0, 1, -3, 2.5, True, False]
 ENCODINGS = [None, None, 'utf-8', 'utf-8-sig', 'utf-16', 'utf-16-le',
              'utf-16-be', 'utf-32', 'latin-1', 'cp1252', 'ascii']
@@ -87,7 +90,8 @@ def _table(rng, fmt, maxrows, nf=None, hdr=None):
     for _ in range(n):
         if fmt in ('json', 'jsonlines', 'jsonarrays'):
             pool = ['x', 'é', '\U0001F600', 'l1\nl2', '', None, 1, 2.5, True,
-                    [1, 'a'], {'k': 1}, 'q"uote']
+                    [1, 'a'], {'k': 1}, 'q"uote', 'nel\x85x', 'ls\u2028x',
+                    'ps\u2029x', 'cr\rx', 'ff\x0cx']
         elif fmt == 'pickle':
             pool = TEXTS + TYPED + [b'by\x00tes', (1, 'a'), [2, None]]
         elif kind == 'text':
